@@ -1,15 +1,147 @@
-import I18n.Model.Msg
+import I18n.Lemmas.MsgTags
 /-
-C16 — message-level diagnostics match their documented conditions.  (under construction)
+C16 — message-level diagnostics match their documented conditions.
+
+`Msg.checkMessages` / `Msg.trace` is the statement-by-statement model of `Checker.check_messages` with its two accumulators
+(`msgid_counter`, `found_unusual_characters`), of `_check_message_flags` and of the XML gate (Model/Msg.lean, Model/MsgFlags.lean);
+`Spec.MessageRules` is the rule set of DESIGN Appendix B, one rule per tag, speaking about an entry and the entries before it.
+The theorems hold for EVERY list of entries, every context (po / pot / MO, charset usable or not) and every environment
+(Unicode tables, string-format table, expat oracle) that is `Sane` (no exception possible: proved for the live tables below).
 -/
 namespace I18n.Props.C16
 open I18n I18n.Msg I18n.Tags
+open I18n.Spec.MessageRules
 
-/-- PIN: the tag names the three methods can emit (ast walk of /repo) are exactly the model's. -/
-theorem emitted_tags_pin :
-    Generated.StringFormats.emittedTags =
-      [(lit "check_messages", MTag.ofCheckMessages.map MTag.name),
-       (lit "_check_message_flags", MTag.ofCheckMessageFlags.map MTag.name),
-       (lit "_check_message_xml_format", MTag.ofXmlFormat.map MTag.name)] := by decide
+/-! ## the imperative model equals the rule set -/
+
+/-- MAIN: what `check_messages` emits — per entry of the file, in order, and for the file as a whole — is exactly the
+    rule set, for all entry lists (induction over the list; the accumulators are invariant-carrying state). -/
+theorem message_tags_eq {env : Env} (hs : Sane env) (ctx : Ctx) (file : List Entry) :
+    trace env ctx file = messageRules env ctx file := trace_eq hs ctx file
+
+/-- the same for the flat sequence of emissions -/
+theorem check_messages_eq {env : Env} (hs : Sane env) (ctx : Ctx) (file : List Entry) :
+    checkMessages env ctx file = (messageRules env ctx file).1.flatten ++ (messageRules env ctx file).2 := by
+  simp [checkMessages, trace_eq hs]
+
+/-- `_check_message_flags` returns the rule set's `info` and emits the rule set's flag tags (no side condition) -/
+theorem message_flags_eq (env : FlagEnv) (e : Entry) : checkMessageFlags env e = (info env e, flagTags env e) :=
+  checkMessageFlags_eq env e
+
+/-- the file kinds of the statement -/
+def ctxOf (pot : Bool) (charsetUsable : Bool) : Ctx := ⟨pot, false, false, charsetUsable⟩
+
+theorem entriesFrom_append (env : Env) (ctx : Ctx) : ∀ (a p b : List Entry),
+    entriesFrom env ctx p (a ++ b) = entriesFrom env ctx p a ++ entriesFrom env ctx (p ++ a) b
+  | [], p, b => by simp [entriesFrom]
+  | x :: a, p, b => by simp [entriesFrom, entriesFrom_append env ctx a (p ++ [x]) b]
+
+theorem entriesFrom_length (env : Env) (ctx : Ctx) : ∀ (a p : List Entry), (entriesFrom env ctx p a).length = a.length
+  | [], _ => rfl
+  | _ :: a, p => by simp [entriesFrom, entriesFrom_length env ctx a]
+
+/-- what the model emits while the loop is at entry `e` (preceded by `pre`) is `entryTags env ctx pre e` -/
+theorem trace_at {env : Env} (hs : Sane env) (ctx : Ctx) (pre post : List Entry) (e : Entry) :
+    (trace env ctx (pre ++ e :: post)).1[pre.length]? = some (entryTags env ctx pre e) := by
+  rw [trace_eq hs]
+  simp only [messageRules]
+  rw [entriesFrom_append]
+  rw [List.getElem?_append_right (by simp [entriesFrom_length])]
+  simp [entriesFrom_length, entriesFrom]
+
+/-! ## one theorem per tag (read off the rule set; with `trace_at` they speak about the model) -/
+
+/-- which tags an entry gets, as one Boolean formula -/
+theorem has_entryTags (env : Env) (ctx : Ctx) (pre : List Entry) (e : Entry) (t : MTag) :
+    has t (entryTags env ctx pre e) =
+      (isMessage e &&
+        (has t (flagTags env.flag e) || has t (xmlTags env ctx e)
+          || (decide (earlierSame pre e = 1) && decide (MTag.duplicateMessageDefinition = t))
+          || (ctx.isTemplate && hasTranslation e && decide (MTag.translationInTemplate = t))
+          || ((e.prevMsgctxt.isSome || e.prevMsgid.isSome || e.prevMsgidPlural.isSome) && !fuzzy e
+                && decide (MTag.strayPreviousMsgid = t))
+          || (((considered e).any fun s => leadingLf s != leadingLf e.msgid) && decide (MTag.inconsistentLeadingNewlines = t))
+          || (((considered e).any fun s => trailingLf s != trailingLf e.msgid) && decide (MTag.inconsistentTrailingNewlines = t))
+          || (ctx.hasEncoding && has t (unusualTags env pre e [] (translations e)))
+          || (!fuzzy e && (((firstMarker env e).isSome && decide (MTag.conflictMarkerInTranslation = t))
+                || (someForm e && e.forms.any (· = []) && decide (MTag.partiallyTranslatedMessage = t)))))) := by
+  unfold entryTags
+  cases hm : isMessage e
+  · simp
+  · cases hf : fuzzy e <;> cases he : ctx.hasEncoding <;>
+      simp [has_dispatch, has_markerTag, Bool.or_assoc]
+
+/-- `duplicate-message-definition` ⇔ the entry is a message and exactly one earlier message has its msgid and msgctxt
+    (it is the SECOND definition) -/
+theorem duplicate_message_definition_iff (env : Env) (ctx : Ctx) (pre : List Entry) (e : Entry) :
+    has .duplicateMessageDefinition (entryTags env ctx pre e) = true ↔ isMessage e = true ∧ earlierSame pre e = 1 := by
+  rw [has_entryTags]
+  simp [has_flagTags_false env.flag e .duplicateMessageDefinition (by decide),
+    has_xmlTags env ctx e .duplicateMessageDefinition (by decide),
+    has_unusualTags env pre e .duplicateMessageDefinition (by decide)]
+
+/-- `translation-in-template` ⇔ POT and the message has a non-empty msgstr or a non-empty form -/
+theorem translation_in_template_iff (env : Env) (ctx : Ctx) (pre : List Entry) (e : Entry) :
+    has .translationInTemplate (entryTags env ctx pre e) = true ↔
+      isMessage e = true ∧ ctx.isTemplate = true ∧ (e.hasMsgstr = true ∨ ∃ s ∈ e.forms, s ≠ []) := by
+  rw [has_entryTags]
+  simp [has_flagTags_false env.flag e .translationInTemplate (by decide),
+    has_xmlTags env ctx e .translationInTemplate (by decide),
+    has_unusualTags env pre e .translationInTemplate (by decide), hasTranslation, someForm]
+
+/-- `stray-previous-msgid` ⇔ some `#|` annotation is present and the message is not fuzzy -/
+theorem stray_previous_msgid_iff (env : Env) (ctx : Ctx) (pre : List Entry) (e : Entry) :
+    has .strayPreviousMsgid (entryTags env ctx pre e) = true ↔
+      isMessage e = true ∧ (e.prevMsgctxt.isSome ∨ e.prevMsgid.isSome ∨ e.prevMsgidPlural.isSome) ∧ lit "fuzzy" ∉ e.flags := by
+  rw [has_entryTags]
+  simp [has_flagTags_false env.flag e .strayPreviousMsgid (by decide),
+    has_xmlTags env ctx e .strayPreviousMsgid (by decide),
+    has_unusualTags env pre e .strayPreviousMsgid (by decide), fuzzy, or_assoc]
+
+/-- `inconsistent-leading-newlines` ⇔ some considered string disagrees with the msgid on a leading newline -/
+theorem inconsistent_leading_newlines_iff (env : Env) (ctx : Ctx) (pre : List Entry) (e : Entry) :
+    has .inconsistentLeadingNewlines (entryTags env ctx pre e) = true ↔
+      isMessage e = true ∧ ∃ s ∈ considered e, leadingLf s ≠ leadingLf e.msgid := by
+  rw [has_entryTags]
+  simp [has_flagTags_false env.flag e .inconsistentLeadingNewlines (by decide),
+    has_xmlTags env ctx e .inconsistentLeadingNewlines (by decide),
+    has_unusualTags env pre e .inconsistentLeadingNewlines (by decide)]
+
+/-- `inconsistent-trailing-newlines` ⇔ some considered string disagrees with the msgid on a trailing newline -/
+theorem inconsistent_trailing_newlines_iff (env : Env) (ctx : Ctx) (pre : List Entry) (e : Entry) :
+    has .inconsistentTrailingNewlines (entryTags env ctx pre e) = true ↔
+      isMessage e = true ∧ ∃ s ∈ considered e, trailingLf s ≠ trailingLf e.msgid := by
+  rw [has_entryTags]
+  simp [has_flagTags_false env.flag e .inconsistentTrailingNewlines (by decide),
+    has_xmlTags env ctx e .inconsistentTrailingNewlines (by decide),
+    has_unusualTags env pre e .inconsistentTrailingNewlines (by decide)]
+
+/-- the considered strings: msgid_plural always; msgstr and the forms only when not fuzzy, msgstr only if non-empty, the
+    forms (all of them) only if one is non-empty -/
+theorem considered_mem (e : Entry) (s : Str) :
+    s ∈ considered e ↔
+      e.msgidPlural = some s ∨
+      (lit "fuzzy" ∉ e.flags ∧ ((e.msgstr = some s ∧ s ≠ []) ∨ (s ∈ e.forms ∧ ∃ f ∈ e.forms, f ≠ []))) := by
+  cases hp : e.msgidPlural <;> cases hf : fuzzy e <;> cases hm : e.msgstr <;>
+    simp_all [considered, Entry.pluralList, Entry.msgstrList, Entry.hasMsgstr, someForm, fuzzy]
+  all_goals grind
+
+/-- `partially-translated-message` ⇔ not fuzzy, and some but not all plural forms are empty -/
+theorem partially_translated_message_iff (env : Env) (ctx : Ctx) (pre : List Entry) (e : Entry) :
+    has .partiallyTranslatedMessage (entryTags env ctx pre e) = true ↔
+      isMessage e = true ∧ lit "fuzzy" ∉ e.flags ∧ (∃ s ∈ e.forms, s ≠ []) ∧ (∃ s ∈ e.forms, s = []) := by
+  rw [has_entryTags]
+  simp [has_flagTags_false env.flag e .partiallyTranslatedMessage (by decide),
+    has_xmlTags env ctx e .partiallyTranslatedMessage (by decide),
+    has_unusualTags env pre e .partiallyTranslatedMessage (by decide), fuzzy, someForm]
+
+/-- `conflict-marker-in-translation` ⇔ not fuzzy, and some translation string contains a marker line -/
+theorem conflict_marker_in_translation_iff (env : Env) (ctx : Ctx) (pre : List Entry) (e : Entry) :
+    has .conflictMarkerInTranslation (entryTags env ctx pre e) = true ↔
+      isMessage e = true ∧ lit "fuzzy" ∉ e.flags ∧ ∃ s ∈ translations e, (env.searchMarker s).isSome := by
+  rw [has_entryTags]
+  simp [has_flagTags_false env.flag e .conflictMarkerInTranslation (by decide),
+    has_xmlTags env ctx e .conflictMarkerInTranslation (by decide),
+    has_unusualTags env pre e .conflictMarkerInTranslation (by decide), fuzzy, firstMarker, List.findSome?_isSome_iff]
 
 end I18n.Props.C16
